@@ -75,7 +75,7 @@ def build(o, spelling="min"):
     if o["creator"]:
         d["created_by_ref"] = sid(o["creator"])
     if t == T_IND20:
-        d.update(pattern="[file:name = 'a']", valid_from="2019-01-01T00:00:00Z", labels=d.get("labels") or ["malicious-activity"])
+        d.update(pattern="[file:name = 'a']", valid_from="2019-01-01T00:00:00Z", labels=d.get("labels") or [LABELS[1]])
     if TYPES[t] == "malware":
         d["is_family"] = False
     if t == T_REL:
@@ -95,8 +95,6 @@ def project(x):
     d = plain_out(x)
     t = TNUM.get(d["type"], 0)
     labels = [REV(LABELS).get(v, 0) for v in d.get("labels", [])]
-    if t == T_IND20:
-        labels = [v for v in labels if v]       # the 2.0 indicator's mandatory label is not a model label
     return {"id": nid(d["id"]), "type": t, "ver": ver_of(d.get("modified")) if "modified" in d else 0,
             "name": REV(NAMES).get(d.get("name"), ABSENT), "num": d.get("confidence", ABSENT), "labels": labels,
             "refs": [{"s": REV(SRCS).get(r.get("source_name"), 0), "v": int(r.get("external_id", "0"))} for r in d.get("external_references", [])],
@@ -105,6 +103,8 @@ def project(x):
 
 
 def mk(id_, ver, name=1, num=ABSENT, labels=(), refs=(), src=0, tgt=0, rtype=0, creator=0):
+    if id_ // 10 == T_IND20 and not labels:
+        labels = (1,)         # a 2.0 indicator must carry labels: it always has a model label, so that abstract and concrete agree
     return {"id": id_, "type": id_ // 10, "ver": ver, "name": name, "num": num, "labels": list(labels), "refs": [dict(r) for r in refs],
             "src": src, "tgt": tgt, "rtype": rtype, "creator": creator}
 
